@@ -288,3 +288,110 @@ func VerifC16_Handler(kindA, kindB, mode int) {
 	c16AnsSame(ansB, refB, "requests do not influence one another (B)")
 	verifReach("done")
 }
+
+// The handler is its wrapper composed with the configured call-backs: with KEKs of every AES key length configured
+// for the sender's label and the device's AS label, the answer written by ServeHTTP equals the answer of
+// handleJoinRequestWrapper / handleRejoinRequestWrapper called with exactly what the call-backs return.
+// kind: 0 join-request without CFList, 1 with CFList, 2 rejoin-request; kekLen: 0 (no KEKs), 16, 24, 32.
+func VerifC16_HandlerKEK(kind, kekLen int) {
+	if verifSymbolic() {
+		verifJSONUnmarshalHook = c16UnmarshalHook
+		verifJSONMarshalHook = c16MarshalHook
+	}
+	d, _ := c16Draw(0, 0, 0)
+	other := lorawan.EUI64(verifNondet8("unknownDevEUI"))
+	verifAssume(other != d.devEUI)
+	jn := int(verifNondetU32("joinNonce") & 0xffffff)
+	dk := DeviceKeys{DevEUI: d.devEUI, NwkKey: lorawan.AES128Key(d.nwkKey), AppKey: lorawan.AES128Key(d.appKey), JoinNonce: jn}
+	var nsKEK, asKEK []byte
+	asLabel := ""
+	if kekLen > 0 {
+		nsKEK, asKEK, asLabel = verifNondetBytes("nsKEK", kekLen), verifNondetBytes("asKEK", kekLen), "as-kek"
+	}
+	req, r := c16MakeReq(kind, d, other, "A")
+	var sender string
+	switch q := req.(type) {
+	case backend.JoinReqPayload:
+		sender = q.SenderID
+	case backend.RejoinReqPayload:
+		sender = q.SenderID
+	}
+	h, err := NewHandler(HandlerConfig{
+		GetDeviceKeysByDevEUIFunc: func(devEUI lorawan.EUI64) (DeviceKeys, error) {
+			if devEUI == d.devEUI {
+				return dk, nil
+			}
+			return DeviceKeys{}, ErrDevEUINotFound
+		},
+		GetKEKByLabelFunc: func(label string) ([]byte, error) {
+			if kekLen == 0 {
+				return nil, nil
+			}
+			if label == asLabel {
+				return verifCopy(asKEK), nil
+			}
+			if label == sender {
+				return verifCopy(nsKEK), nil
+			}
+			return nil, nil
+		},
+		GetASKEKLabelByDevEUIFunc: func(devEUI lorawan.EUI64) (string, error) { return asLabel, nil },
+	})
+	verifAssert(err == nil, "NewHandler succeeds")
+	got := c16Serve(h, req)
+	c16CheckMirror(got, req, kind, r, "handler answer")
+	var want c16Ans
+	switch q := req.(type) {
+	case backend.JoinReqPayload:
+		want = c16FromJoinAns(handleJoinRequestWrapper(q, dk, asLabel, asKEK, sender, nsKEK))
+	case backend.RejoinReqPayload:
+		want = c16FromRejoinAns(handleRejoinRequestWrapper(q, dk, asLabel, asKEK, sender, nsKEK))
+	}
+	c16AnsSame(got, want, "the handler answers what its wrapper answers for the values the call-backs returned (KEKs of any AES key length)")
+	verifReach("done")
+}
+
+const c16UpperHex = "0123456789ABCDEF"
+
+func c16HexUpper(b []byte) string {
+	out := make([]byte, 0, 2*len(b))
+	for _, x := range b {
+		out = append(out, c16UpperHex[x>>4], c16UpperHex[x&15])
+	}
+	return string(out)
+}
+
+// Sender / receiver ids are mirrored as received, whatever accepted text form they use.
+// form 0: lower-case hex, 1: upper-case hex, 2: 0x prefix.
+func VerifC16_IDForms(form, optNeg int) {
+	d, r := c16Draw(0, 0, 0)
+	r.optNeg = optNeg == 1
+	devNonce := verifNondetU16("devNonce")
+	body := append(append(c16Rev8(d.joinEUI), c16Rev8(d.devEUI)...), byte(devNonce), byte(devNonce>>8))
+	msg := append([]byte{0x00}, body...)
+	mic := c16First4(verifCMAC(d.nwkKey[:], msg))
+	sender, receiver := d.netID.String(), d.joinEUI.String()
+	switch form {
+	case 1:
+		sender, receiver = c16HexUpper(d.netID[:]), c16HexUpper(d.joinEUI[:])
+	case 2:
+		sender, receiver = "0x"+sender, "0x"+receiver
+	}
+	req := backend.JoinReqPayload{
+		BasePayload: backend.BasePayload{ProtocolVersion: backend.ProtocolVersion1_0, SenderID: sender, ReceiverID: receiver, TransactionID: r.txID, MessageType: backend.JoinReq},
+		MACVersion:  "1.0.3", PHYPayload: backend.HEXBytes(append(msg, mic[:]...)), DevEUI: d.devEUI, DevAddr: r.devAddr,
+		DLSettings: lorawan.DLSettings{OptNeg: r.optNeg, RX1DROffset: r.rx1Off, RX2DataRate: r.rx2DR}, RxDelay: int(r.rxDelay),
+	}
+	dk := DeviceKeys{DevEUI: d.devEUI, NwkKey: lorawan.AES128Key(d.nwkKey), AppKey: lorawan.AES128Key(d.appKey), JoinNonce: int(r.joinNonce)}
+	ans := handleJoinRequestWrapper(req, dk, "", nil, sender, nil)
+	verifAssert(ans.Result.ResultCode == backend.Success, "ids in any accepted text form: a valid join-request yields Success")
+	verifAssert(ans.SenderID == receiver, "the answer's sender is the request's receiver, as received")
+	verifAssert(ans.ReceiverID == sender, "the answer's receiver is the request's sender, as received")
+	verifAssert(ans.TransactionID == r.txID, "the answer mirrors the transaction id")
+	if ans.Result.ResultCode == backend.Success {
+		acc := []byte(ans.PHYPayload)
+		jaBody, _ := c16Decrypt(d.nwkKey, acc)
+		c16CheckAccept(d, r, jaBody)
+	}
+	verifReach("done")
+}
